@@ -229,6 +229,171 @@ fn gen_case(rng: &mut Prng) -> Value {
     })
 }
 
+/// n-1, n, n+1 of every hinted number, as values (not sizes)
+pub fn hint_values(h: &Hints, max: u64) -> Vec<u64> {
+    let mut out = Vec::new();
+    for n in &h.nums {
+        for v in [n.saturating_sub(1), *n, n.saturating_add(1)] {
+            if v <= max && !out.contains(&v) {
+                out.push(v);
+            }
+        }
+    }
+    out
+}
+
+/// hinted strings, also upper- / lower-cased, and prefix-related variants (for ids)
+pub fn hint_strings(h: &Hints) -> Vec<String> {
+    let mut out: Vec<String> = Vec::new();
+    for s in &h.strs {
+        for v in [s.clone(), s.to_uppercase(), s.to_lowercase()] {
+            if !out.contains(&v) {
+                out.push(v);
+            }
+        }
+    }
+    out
+}
+
+/// Hint-directed action cases: every hinted number as status code / listed response code / probed response code /
+/// rank / sampling rate / fallback code, hinted sizes as numbers of rules, filters, listed codes and id lengths;
+/// every hinted string as rule id (with prefix-related neighbours), header name / value / action, body content,
+/// target, unit ids, target hashes, skipped query, response header.
+pub fn hint_cases(rng: &mut Prng, h: &Hints) -> Vec<Value> {
+    let mut out = Vec::new();
+    let canonical_ops = || vec![json!({"op":"status"}), json!({"op":"headers"}), json!({"op":"body"}), json!({"op":"log"})];
+    for v in hint_values(h, u32::MAX as u64) {
+        for variant in 0..4 {
+            let mut case = gen_case(rng);
+            let n = case["rules"].as_array().unwrap().len();
+            let k = rng.below(n);
+            {
+                let r = &mut case["rules"][k];
+                match variant {
+                    0 => {
+                        // status code + probed code + listed code
+                        r["status_code"] = json!(v);
+                        r["codes"] = json!([v]);
+                        r["sampling"] = Value::Null;
+                    }
+                    1 => {
+                        r["codes"] = json!([404, v]);
+                        r["excl"] = json!(true);
+                        r["status_code"] = json!(301);
+                    }
+                    2 => {
+                        r["rank"] = json!(v);
+                        r["sampling"] = json!(v);
+                    }
+                    _ => {
+                        r["sampling"] = json!(v);
+                        r["status_code"] = json!(302);
+                    }
+                }
+            }
+            if variant >= 2 && case["ov"].is_null() && v > 0 && v < 100 {
+                case["ov"] = json!(rng.chance(1, 2)); // a rate strictly between 0 and 100 needs the override to be deterministic
+            }
+            let mut codes: Vec<Value> = RESPONSE_CODES.iter().map(|c| json!(c)).collect();
+            if v <= 65535 {
+                codes.push(json!(v));
+            }
+            case["codes"] = Value::Array(codes);
+            let mut ops = canonical_ops();
+            if v <= 65535 {
+                ops.push(json!({"op":"final","fb": v}));
+            }
+            case["ops"] = Value::Array(ops);
+            out.push(case);
+        }
+    }
+    for k in h.sizes(12) {
+        // k rules (the harness accepts any number), k header / body filters, k listed codes
+        let ids: Vec<String> = (0..k).map(|i| format!("h{i:02}")).collect();
+        let rules: Vec<Value> = ids.iter().enumerate().map(|(ri, id)| gen_rule(rng, id, ri, false, false)).collect();
+        let mut case = gen_case(rng);
+        case["rules"] = Value::Array(rules);
+        case["via"] = json!("direct");
+        case["ops"] = Value::Array(canonical_ops());
+        out.push(case);
+        let mut case = gen_case(rng);
+        {
+            let r = &mut case["rules"][0];
+            r["hf"] = Value::Array((0..k).map(|i| json!({"action": "add", "header": "X-H", "value": format!("v{i}"), "id": format!("hu{i}"), "target_hash": "th-a"})).collect());
+            r["bf"] = Value::Array((0..k).map(|i| json!({"kind": "text", "action": if i % 2 == 0 { "append_text" } else { "prepend_text" }, "content": format!("[{i}]"), "id": format!("bu{i}")})).collect());
+            r["codes"] = Value::Array((0..k).map(|i| json!(400 + i as u64)).collect());
+        }
+        out.push(case);
+    }
+    for k in h.sizes(300) {
+        // id lengths, with prefix-related neighbours
+        let base = "a".repeat(k);
+        let ids = vec![base.clone(), format!("{base}a"), base[..k.saturating_sub(1)].to_string(), format!("{}b", &base[..k.saturating_sub(1)])];
+        let mut seen = Vec::new();
+        let rules: Vec<Value> = ids.iter().filter(|id| if seen.contains(*id) { false } else { seen.push((*id).clone()); true }).enumerate().map(|(ri, id)| {
+            let mut r = gen_rule(rng, id, ri, false, false);
+            r["rank"] = json!(1);
+            r
+        }).collect();
+        let mut case = gen_case(rng);
+        case["rules"] = Value::Array(rules);
+        case["via"] = json!("direct");
+        out.push(case);
+    }
+    for s in hint_strings(h) {
+        // rule ids: the string, prefix-related neighbours, all with the same rank so that only the id decides
+        let mut ids = vec![s.clone(), format!("{s}0"), format!("{s}-1"), s.chars().take(s.chars().count().saturating_sub(1)).collect::<String>(), format!("a{s}")];
+        ids.dedup();
+        let mut seen: Vec<String> = Vec::new();
+        ids.retain(|id| if seen.contains(id) { false } else { seen.push(id.clone()); true });
+        for via in ["direct", "router"] {
+            let rules: Vec<Value> = ids.iter().enumerate().map(|(ri, id)| {
+                let mut r = gen_rule(rng, id, ri, false, false);
+                r["rank"] = json!(1);
+                r
+            }).collect();
+            let mut case = gen_case(rng);
+            case["rules"] = Value::Array(rules);
+            case["via"] = json!(via);
+            case["ops"] = Value::Array(canonical_ops());
+            out.push(case);
+        }
+        // free text everywhere else
+        let mut case = gen_case(rng);
+        {
+            let r = &mut case["rules"][0];
+            let hname = if s.is_ascii() && !s.is_empty() && !["content-type", "content-encoding"].contains(&s.to_lowercase().as_str()) { s.clone() } else { "X-H".to_string() };
+            r["hf"] = json!([
+                {"action": s, "header": "X-A", "value": "v", "id": s, "target_hash": s},
+                {"action": "add", "header": hname, "value": s, "id": format!("{s}2"), "target_hash": s},
+                {"action": "override", "header": hname, "value": format!("{s}{s}"), "id": s, "target_hash": s},
+                {"action": "replace", "header": hname.to_uppercase(), "value": s, "id": "hu", "target_hash": "status_code"},
+            ]);
+            r["bf"] = json!([{"kind": "text", "action": "append_text", "content": s, "id": s, "target_hash": s}, {"kind": "text", "action": "prepend_text", "content": s, "id": format!("{s}b")}]);
+            r["target"] = json!(s);
+            r["ru"] = json!(s);
+            r["lu"] = json!(s);
+            r["cu"] = json!(s);
+            r["th"] = json!(s);
+            r["status_code"] = json!(301);
+            r["log"] = json!(true);
+            r["reset"] = json!(true);
+            r["sampling"] = Value::Null;
+            r["codes"] = Value::Null;
+        }
+        case["skipped"] = json!(s);
+        if s.is_ascii() && !s.is_empty() && !["content-type", "content-encoding"].contains(&s.to_lowercase().as_str()) {
+            case["headers"] = json!([[s, "0"], ["X-A", s], [s.to_uppercase(), s]]);
+        } else {
+            case["headers"] = json!([["X-A", s]]);
+        }
+        case["body"] = json!(s);
+        case["ops"] = Value::Array(canonical_ops());
+        out.push(case);
+    }
+    out
+}
+
 /// thorough: every sequence of <= 3 effects from a 24-effect pool; ids are assigned by position so that
 /// the sequence IS the application order (same rank, ids descending), the match vector is given reversed.
 fn exhaustive_pool() -> Vec<Value> {
@@ -283,6 +448,17 @@ pub fn gen(args: &Args, emit: &mut dyn FnMut(Value)) {
                     emit(mk(&[a, b, c]));
                 }
             }
+        }
+    }
+    // diff-directed hints first (empty on the unchanged tree)
+    let h = hints();
+    if !h.is_empty() {
+        let mut hr = Prng::new(args.seed ^ 0x4849_4e54);
+        for c in hint_cases(&mut hr, &h) {
+            emit(c);
+        }
+        for c in into_route::hint_cases(&mut hr, &h) {
+            emit(c);
         }
     }
     for _ in 0..args.n {
@@ -787,6 +963,73 @@ pub mod into_route {
             _ => Value::Array((0..rng.range(1, 4)).map(|_| json!(*rng.pick(DAYS))).collect()),
         });
         json!({"kind": "into_route", "cfg": cfg, "src": Value::Object(src)})
+    }
+
+    /// Hint-directed rule sources: hinted numbers as rank, cidr prefix length / octet, hour / minute / day, counts of
+    /// ranges / headers / week days; hinted strings as host, path, query, scheme, method, header kind / name / value,
+    /// cidr, instant, time, week-day name.
+    pub fn hint_cases(rng: &mut Prng, h: &Hints) -> Vec<Value> {
+        let mut out = Vec::new();
+        for v in hint_values(h, u32::MAX as u64) {
+            let mut case = gen_case(rng);
+            {
+                let src = &mut case["src"];
+                src["rank"] = json!(v);
+                src["ips"] = json!([{"neg": false, "range": format!("10.0.0.0/{v}")}, {"neg": true, "range": format!("{v}.0.0.0/8")}, {"neg": false, "range": format!("10.{v}.0.1")}]);
+                src["time"] = json!([[format!("{:02}:00:00", v % 100), format!("00:{:02}:00", v % 100)]]);
+                src["datetime"] = json!([[format!("2020-01-{:02}T00:00:00Z", v % 100), format!("{:04}-01-01T00:00:00+00:00", 1970 + v % 8000)]]);
+            }
+            out.push(case);
+        }
+        for k in h.sizes(12) {
+            let mut case = gen_case(rng);
+            {
+                let src = &mut case["src"];
+                src["ips"] = Value::Array((0..k).map(|i| json!({"neg": i % 3 == 0, "range": RANGES[i % RANGES.len()]})).collect());
+                src["headers"] = Value::Array((0..k).map(|i| json!({"name": "X-A", "kind": KINDS[i % KINDS.len()], "value": "v"})).collect());
+                src["weekdays"] = Value::Array((0..k).map(|i| json!(DAYS[i % DAYS.len()])).collect());
+                src["datetime"] = Value::Array((0..k).map(|i| json!([INSTANTS[i % INSTANTS.len()], Value::Null])).collect());
+                src["methods"] = Value::Array((0..k).map(|i| json!(["GET", "POST", "get"][i % 3])).collect());
+            }
+            out.push(case);
+        }
+        for s in hint_strings(h) {
+            for variant in 0..3 {
+                let mut case = gen_case(rng);
+                {
+                    let src = &mut case["src"];
+                    match variant {
+                        0 => {
+                            src["path"] = json!(format!("/{s}"));
+                            src["query"] = json!(format!("{s}=1&a={s}"));
+                            if s.is_ascii() {
+                                src["host"] = json!(s);
+                                src["scheme"] = json!(s);
+                            }
+                            src["methods"] = json!([s, "GET"]);
+                        }
+                        1 => {
+                            let t = if s.is_ascii() { s.clone() } else { "v".to_string() };
+                            src["headers"] = json!([
+                                {"name": "X-A", "kind": s, "value": "v"},
+                                {"name": if t.is_empty() { "X-A".to_string() } else { t.clone() }, "kind": "is_equals", "value": t},
+                                {"name": "X-A", "kind": "match_regex", "value": format!("{t}@d")},
+                                {"name": "X-A", "kind": "contains", "value": t.to_uppercase()},
+                            ]);
+                            src["markers"] = json!("d");
+                        }
+                        _ => {
+                            src["ips"] = json!([{"neg": false, "range": s}, {"neg": false, "range": "10.0.0.0/8"}]);
+                            src["datetime"] = json!([[s, "2020-01-01T00:00:00Z"]]);
+                            src["time"] = json!([[s, Value::Null]]);
+                            src["weekdays"] = json!([s, "mon"]);
+                        }
+                    }
+                }
+                out.push(case);
+            }
+        }
+        out
     }
 
     fn marker_regex(c: char) -> Option<&'static str> {
